@@ -30,9 +30,36 @@ def run(ctx):
     lines, meta = [], []
     fails, disagreements = [], []
     nontrivial = set()
+    # records that are equal as Python values but different on the wire: aware timestamps that differ
+    # only in `fold` (PEP 495) — same wall clock, one hour apart; every record must be written from its
+    # own instant
+    import dataclasses
+    import datetime
+    fold_objs = {}
+    try:
+        from zoneinfo import ZoneInfo
+        z = ZoneInfo("Europe/Berlin")
+        f0 = datetime.datetime(2023, 10, 29, 2, 30, tzinfo=z, fold=0)
+        f1 = datetime.datetime(2023, 10, 29, 2, 30, tzinfo=z, fold=1)
+        if f1.timestamp() - f0.timestamp() == 3600:
+            for _ in range(8):
+                a = recgen.gen_new_batch(rng)
+                r0 = a[1][4][1][0]
+                recs = []
+                for fdt in (f0, f1, f0):
+                    rr = list(r0[1]); rr[1] = ("D", int(fdt.timestamp()) * 10**6)
+                    recs.append(("E", rr))
+                a[1][4] = ("A", recs)
+                batches.append(a)
+                fold_objs[id(a)] = (f0, f1, f0)
+    except Exception:  # noqa: BLE001 - no tz database
+        pass
     for a in batches:
         try:
             nb = recgen.build_new_batch(a)
+            if id(a) in fold_objs:
+                nb = dataclasses.replace(nb, records=tuple(
+                    dataclasses.replace(r, timestamp=t) for r, t in zip(nb.records, fold_objs[id(a)])))
         except Exception:
             continue
         py = recgen.write_real(nb)
@@ -65,7 +92,7 @@ def run(ctx):
     ctx.coverage.update({
         "evaluations": len(batches), "distinct_nontrivial": len(nontrivial),
         "rule": "case = generated NewRecordBatch; non-trivial iff ≥1 record with non-null key or value; distinct by SHA-1",
-        "reply_kinds": kinds, "outside_representable_domain": len(outside), "disagreements": len(disagreements), "property_failures_on_code": len(fails),
+        "fold_twin_batches": len(fold_objs), "reply_kinds": kinds, "outside_representable_domain": len(outside), "disagreements": len(disagreements), "property_failures_on_code": len(fails),
         "samples": [values.render(a)[:300] for a in batches[:3]],
     })
     classify(ctx, fails, disagreements)
